@@ -313,8 +313,6 @@ def run_case(seed, tier, case_no):
     sample = {"profile": profile, "net": netgen.describe(net), "calc": fn.__name__, "options": opts}
     if status != "ok":
         return common.case(digest, nontrivial=False, skipped=status, sample=sample)
-    if dc and (net.res_bus.va_degree.abs() > 1e5).any():
-        return common.case(digest, nontrivial=False, skipped="dc_garbage_F29", sample=sample)
     tags, viols, compared, alt = set(), [], 0, 0
     for name in TRANSFORMS:
         n2 = copy.deepcopy(base)
